@@ -163,8 +163,13 @@ func sourceView(t fsmodel.Tree) fsmodel.Tree {
 			out[i].Kind = fsmodel.File
 			out[i].Data = nil
 		}
+		if out[i].Kind == fsmodel.Symlink {
+			// the protocol's link-name field carries a symlink's target; names of one symlink inode arrive as
+			// separate, equal symlinks
+			out[i].HL = 0
+		}
 	}
-	return out
+	return fixGroups(out)
 }
 
 // overlay is the merge-mode expectation: the source laid over the old
